@@ -73,8 +73,14 @@ func showObs(o *obsVar) string {
 	return showElems(o.elems)
 }
 
-func showState(st *[3]obsVar) string {
-	return fmt.Sprintf("a=%s b=%s c=%s", showObs(&st[0]), showObs(&st[1]), showObs(&st[2]))
+func showState(st *state) string {
+	out := fmt.Sprintf("a=%s b=%s c=%s", showObs(&st[0]), showObs(&st[1]), showObs(&st[2]))
+	for i := 3; i < nLoc; i++ {
+		if st[i].present || st[i].bad != "" {
+			out += " " + varNames[i] + "=" + showObs(&st[i])
+		}
+	}
+	return out
 }
 
 // overlap: do the capacity ranges of any two slices of x and y intersect?
@@ -105,19 +111,19 @@ type execErr struct {
 // impl is an implementation of the three-variable list machine: the real
 // slip, the cons-cell reference, or a (mutated) slice model.
 type impl interface {
-	reset()
+	reset(hist []*opDef)
 	exec(o *opDef, n int64) *execErr
-	observe() [3]obsVar
+	observe() state
 }
 
 // track is the model-side bookkeeping carried along a history.
 type track struct {
-	cls     [3]int            // sharing class by the language rules (0: empty list, shares with nothing)
+	cls     [nLoc]int         // sharing class by the language rules (0: empty list, shares with nothing)
 	nextCls int               // next fresh class id
 	origin  map[[2]int]string // var pair -> family that created a physical alias the language rules do not allow
 }
 
-func newTrack() *track { return &track{cls: [3]int{1, 0, 0}, nextCls: 2, origin: map[[2]int]string{}} }
+func newTrack() *track { return &track{cls: [nLoc]int{1}, nextCls: 2, origin: map[[2]int]string{}} }
 
 func pair(i, j int) [2]int {
 	if j < i {
@@ -130,7 +136,7 @@ func sameClass(t *track, i, j int) bool { return t.cls[i] != 0 && t.cls[i] == t.
 
 // applicable decides, from the OBSERVED pre-state, whether op has a defined
 // outcome in the reference semantics.
-func applicable(o *opDef, pre *[3]obsVar, t *track) bool {
+func applicable(o *opDef, pre *state, t *track) bool {
 	for _, v := range []int{o.s, o.t} {
 		if 0 <= v && pre[v].bad != "" {
 			return false
@@ -142,6 +148,15 @@ func applicable(o *opDef, pre *[3]obsVar, t *track) bool {
 	if o.needT && pre[o.t].empty() {
 		return false
 	}
+	if 0 <= o.t && len(pre[o.t].elems) < o.minT {
+		return false
+	}
+	if o.okS != nil && 0 <= o.s && !o.okS(pre[o.s].elems) {
+		return false
+	}
+	if o.okST != nil && 0 <= o.s && 0 <= o.t && !o.okST(pre[o.s].elems, pre[o.t].elems) {
+		return false
+	}
 	if o.anyST && pre[o.s].empty() && pre[o.t].empty() {
 		return false
 	}
@@ -151,7 +166,7 @@ func applicable(o *opDef, pre *[3]obsVar, t *track) bool {
 	return true
 }
 
-func freshNumber(pre *[3]obsVar) int64 {
+func freshNumber(pre *state) int64 {
 	n := int64(4)
 	for i := range pre {
 		for _, e := range pre[i].elems {
@@ -164,7 +179,7 @@ func freshNumber(pre *[3]obsVar) int64 {
 }
 
 // advance updates classes and alias origins after op was executed.
-func (t *track) advance(o *opDef, pre, post *[3]obsVar) {
+func (t *track) advance(o *opDef, pre, post *state) {
 	old := *t
 	oldOrigin := t.origin
 	_ = pre
@@ -208,8 +223,8 @@ func (t *track) advance(o *opDef, pre, post *[3]obsVar) {
 	}
 	// physical aliases that the language rules do not allow: remember which family created them
 	t.origin = map[[2]int]string{}
-	for i := 0; i < 3; i++ {
-		for j := i + 1; j < 3; j++ {
+	for i := 0; i < nLoc; i++ {
+		for j := i + 1; j < nLoc; j++ {
 			if sameClass(t, i, j) || !overlap(&post[i], &post[j]) {
 				continue
 			}
@@ -266,7 +281,7 @@ func (t *track) canon() string {
 // stateKey dumps the implementation state: contents plus slice identity
 // (backing array renamed by first appearance, offset, len, cap) of every list
 // reachable from a, b, c.
-func stateKey(st *[3]obsVar) string {
+func stateKey(st *state) string {
 	type rng struct{ lo, hi uintptr }
 	var rs []rng
 	for i := range st {
@@ -338,7 +353,7 @@ func digest(s string) string {
 // runHistory replays hist on im and applies the oracle to the LAST step.
 // wantKey: also compute the BFS state key and the enabled set.
 func runHistory(im impl, hist []*opDef, wantKey bool) (res engine.Result) {
-	im.reset()
+	im.reset(hist)
 	t := newTrack()
 	post := im.observe()
 	for i := range post {
@@ -354,7 +369,7 @@ func runHistory(im impl, hist []*opDef, wantKey bool) (res engine.Result) {
 		}
 		return
 	}
-	var pre [3]obsVar
+	var pre state
 	for step, o := range hist {
 		last := step == len(hist)-1
 		pre = post
@@ -401,6 +416,9 @@ func runHistory(im impl, hist []*opDef, wantKey bool) (res engine.Result) {
 	}
 	if wantKey {
 		res.Key = digest(stateKey(&post) + "| " + t.canon())
+		if list, all := enabledAfter(hist); !all {
+			res.Enabled = list
+		}
 	}
 	return
 }
@@ -424,7 +442,7 @@ func histText(hist []*opDef) string {
 }
 
 // check applies frame / independence / value to the last step.
-func check(res *engine.Result, o *opDef, n int64, pre, post *[3]obsVar, t *track, err *execErr, hist []*opDef) {
+func check(res *engine.Result, o *opDef, n int64, pre, post *state, t *track, err *execErr, hist []*opDef) {
 	ctx := func() string {
 		return fmt.Sprintf("history [%s], last step %s with fresh element %d: before %s, after %s", histText(hist), o.lisp(n),
 			n, showState(pre), showState(post))
@@ -439,8 +457,8 @@ func check(res *engine.Result, o *opDef, n int64, pre, post *[3]obsVar, t *track
 	// ---- vacuity counters and the non-triviality rule
 	res.Hit("judged") // histories with an inapplicable step are executed up to that step and judge nothing
 	shared := false
-	for i := 0; i < 3; i++ {
-		for j := i + 1; j < 3; j++ {
+	for i := 0; i < nLoc; i++ {
+		for j := i + 1; j < nLoc; j++ {
 			if overlap(&pre[i], &pre[j]) {
 				shared = true
 			}
@@ -453,7 +471,7 @@ func check(res *engine.Result, o *opDef, n int64, pre, post *[3]obsVar, t *track
 		if v < 0 {
 			continue
 		}
-		for w := 0; w < 3; w++ {
+		for w := 0; w < nLoc; w++ {
 			if w != v && o.destr && overlap(&pre[v], &pre[w]) {
 				res.Hit("destructive-on-shared")
 				break
@@ -465,6 +483,21 @@ func check(res *engine.Result, o *opDef, n int64, pre, post *[3]obsVar, t *track
 	}
 	if 0 < len(t.origin) {
 		res.Hit("illegal-alias-live")
+	}
+	if o.group != "" && err == nil {
+		res.Hit("fam:" + o.name) // every family of the second generation must be judged at least once
+		if o.base != nil && o.want != nil {
+			var sv, tv []int64
+			if 0 <= o.s {
+				sv = pre[o.s].elems
+			}
+			if 0 <= o.t {
+				tv = pre[o.t].elems
+			}
+			if !sameElems(o.want(sv, tv, n), o.base(sv, tv, n)) {
+				res.Hit("kw:" + o.name) // the keyword selected another result than the keyword-free form
+			}
+		}
 	}
 
 	if err != nil {
@@ -479,6 +512,9 @@ func check(res *engine.Result, o *opDef, n int64, pre, post *[3]obsVar, t *track
 	affected := map[int]bool{}
 	if o.destr {
 		for _, v := range []int{o.s, o.t} {
+			if v == o.s && o.keepS || v == o.t && o.keepT {
+				continue // this operand is only read
+			}
 			if 0 <= v && t.cls[v] != 0 {
 				affected[t.cls[v]] = true
 			}
@@ -488,11 +524,11 @@ func check(res *engine.Result, o *opDef, n int64, pre, post *[3]obsVar, t *track
 	if o.destr {
 		inv = "independence"
 	}
-	for v := 0; v < 3; v++ {
+	for v := 0; v < nLoc; v++ {
 		if v == o.dst {
 			continue
 		}
-		if o.destr && (v == o.s || v == o.t || affected[t.cls[v]]) {
+		if o.destr && (v == o.s && !o.keepS || v == o.t && !o.keepT || affected[t.cls[v]]) {
 			continue // may share with the target by the language rules: contents not compared (S2)
 		}
 		if !pre[v].empty() {
@@ -535,13 +571,20 @@ func check(res *engine.Result, o *opDef, n int64, pre, post *[3]obsVar, t *track
 		case got.bad != "":
 			fail(fmt.Sprintf("inv=malformed op=%s what=%s", o.fn, got.bad),
 				fmt.Sprintf("%s: the result is not a list of the elements given: %s; expected %s", ctx(), got.bad, showElems(want)))
+		case o.setEq && sameSet(got.elems, want):
+		case o.alt != nil && sameElems(got.elems, o.alt(sv, tv, n)):
 		case !sameElems(got.elems, want):
 			fail(fmt.Sprintf("inv=value op=%s diff=%s", o.fn, diffKind(got.elems, want)),
 				fmt.Sprintf("%s: %s is %s; the reference result is %s", ctx(), varNames[o.dst], showObs(got), showElems(want)))
 		}
 	}
-	if o.wantS != nil {
-		want := o.wantS(sv, n)
+	if o.wantS != nil || o.wantS2 != nil {
+		var want []int64
+		if o.wantS != nil {
+			want = o.wantS(sv, n)
+		} else {
+			want = o.wantS2(sv, tv, n)
+		}
 		got := &post[o.s]
 		switch {
 		case got.bad != "":
